@@ -37,6 +37,9 @@ pub struct ClientCfg {
     pub silent_from: Option<u32>,
     pub disconnect_at: Option<u32>,
     pub payload_ticks: Vec<u32>,
+    /// the client's own clock (the time it passes to NetcodeClient::new) when it starts, in seconds; None = the
+    /// server's clock. Clients and token issuers do not share a time base in general
+    pub clock_s: Option<u64>,
 }
 
 impl ClientCfg {
@@ -48,6 +51,7 @@ impl ClientCfg {
             addr_list: vec![0],
             start_tick: 0,
             silent_from: None,
+            clock_s: None,
             disconnect_at: None,
             payload_ticks: vec![],
         }
@@ -205,6 +209,8 @@ pub struct Sim<'c> {
     /// client side: client clock time (ms) of the last authentic server datagram processed
     pub last_auth_at_client: Vec<Option<u64>>,
     pub client_now_ms: Vec<u64>,
+    /// the client's clock when it was created
+    pub client_start_ms: Vec<u64>,
     pub faults_open: bool,
     pub current_max: usize,
     pub deviations: u32,
@@ -245,6 +251,7 @@ impl<'c> Sim<'c> {
             reply_from: Default::default(),
             last_auth_at_client: vec![None; cfg.clients.len()],
             client_now_ms: vec![0; cfg.clients.len()],
+            client_start_ms: vec![0; cfg.clients.len()],
             faults_open: true,
             current_max: cfg.max_clients,
             deviations: 0,
@@ -417,9 +424,11 @@ impl<'c> Sim<'c> {
                     continue;
                 }
                 if self.clients[i].is_none() {
-                    self.clients[i] = Some(new_client(Duration::from_millis(self.now_ms), &self.tokens[i]));
-                    self.client_now_ms[i] = self.now_ms;
-                    self.last_auth_at_client[i] = Some(self.now_ms);
+                    let start_ms = cc.clock_s.map(|s| s * 1000).unwrap_or(self.now_ms);
+                    self.clients[i] = Some(new_client(Duration::from_millis(start_ms), &self.tokens[i]));
+                    self.client_now_ms[i] = start_ms;
+                    self.client_start_ms[i] = start_ms;
+                    self.last_auth_at_client[i] = Some(start_ms);
                 }
                 // arrivals
                 let mut due: Vec<usize> = vec![];
